@@ -612,12 +612,7 @@ Proof.
   pose proof (matches_first _ _ Hm) as Hname. split; [|exact Hname].
   unfold dir_shorts. apply filter_In. split; [exact Hin|]. unfold short_slot.
   assert (Hval : t_is_valid t = true) by exact (matches_valid sfn (snd t) (sfn_first_byte sfn Hwf) H229 Hm).
-  rewrite Hval. cbn [andb]. apply negb_true_iff. destruct (is_lfn (t_attr t)) eqn:El; [|reflexivity]. exfalso.
-  destruct (do_lfn _ _ _ _ _ Hok t Hin Hval El) as (k & Hk & Hlt).
-  destruct Hwf as (Hlen & Hall). rewrite Forall_forall in Hall.
-  assert (Hn : nth k (snd t) 0 = nth k sfn 0) by (rewrite <- Hname; symmetry; apply nth_firstn_lt; exact Hk).
-  assert (Hge : 32 <= nth k sfn 0) by (apply Hall; apply nth_In; lia).
-  lia.
+  rewrite Hval. cbn [andb]. apply negb_true_iff. exact (proj1 (matches_parts _ _ Hm)).
 Qed.
 
 (* no live short entry has the name that was not found *)
@@ -628,7 +623,8 @@ Proof.
   intros Hok Hfind Hin. rewrite (live_is_dir_live d v own parent bl' Hok) in Hfind.
   apply in_map_iff in Hin. destruct Hin as (t & Hn & Ht). unfold dir_shorts in Ht. apply filter_In in Ht.
   pose proof (find_none _ _ Hfind t (proj1 Ht)) as Hm. unfold t_matches, matches in Hm.
-  unfold t_name in Hn. rewrite Hn, list_eqb_refl in Hm. discriminate.
+  destruct (short_valid t (proj2 Ht)) as [_ Hnl]. unfold t_attr in Hnl.
+  unfold t_name in Hn. rewrite Hn, list_eqb_refl, Hnl in Hm. discriminate.
 Qed.
 
 (* a live short entry that is no dot entry stands for a kid *)
